@@ -1,0 +1,77 @@
+//go:build verif
+
+package interceptedBlocks
+
+// Contracts for govc (/verif). Comment-only file: no executable code, not part of the default build.
+// C18: which bytes the hash of an intercepted header / meta header / miniblock is computed from.
+
+/*@
+// the hash function as a function of the input string (uninterpreted)
+spec fn blockHashOf(s string) string
+// canonical encodings of the decoded content: what marshalizer.Marshal(hdr) returns (uninterpreted)
+spec fn canonHeader(h *block.Header) string
+spec fn canonMeta(h *block.MetaBlock) string
+spec fn canonMiniblock(m *block.MiniBlock) string
+
+func (h hashing.Hasher) Compute(s string) (r []byte)
+  ensures function-of-input: str(r) == blockHashOf(s)
+  assigns nothing
+
+func (c sharding.Coordinator) SelfId() (r uint32)
+  pure
+
+func (h data.HeaderHandler) GetShardID() (r uint32)
+  pure
+
+func (inHdr *InterceptedHeader) HeaderHandler() (r data.HeaderHandler)
+  ensures the-decoded-header: typeIs(r, ptr_block.Header) && payload(r, ptr_block.Header) == inHdr.hdr
+  assigns nothing
+
+func (inHdr *InterceptedHeader) processFields(txBuff []byte)
+  requires collaborators-set: inHdr.hdr != nil && inHdr.hasher != nil && inHdr.shardCoordinator != nil
+  ensures  hash-of-received-bytes: str(inHdr.hash) == blockHashOf(str(txBuff))
+  ensures  metachain-takes-every-header: inHdr.shardCoordinator.SelfId() == core.MetachainShardId ==> inHdr.isForCurrentShard
+  assigns  inHdr.hash, inHdr.isForCurrentShard
+
+func (imh *InterceptedMetaHeader) processFields(txBuff []byte)
+  requires collaborators-set: imh.hasher != nil
+  ensures  hash-of-received-bytes: str(imh.hash) == blockHashOf(str(txBuff))
+  assigns  imh.hash
+
+func (inMb *InterceptedMiniblock) processIsForCurrentShard()
+  requires collaborators-set: inMb.miniblock != nil && inMb.shardCoordinator != nil
+  ensures  addressed-here: inMb.isForCurrentShard <==> (inMb.miniblock.ReceiverShardID == inMb.shardCoordinator.SelfId() || inMb.miniblock.SenderShardID == inMb.shardCoordinator.SelfId() || inMb.miniblock.ReceiverShardID == core.AllShardId)
+  assigns  inMb.isForCurrentShard
+
+func (inMb *InterceptedMiniblock) processFields(mbBuff []byte)
+  requires collaborators-set: inMb.miniblock != nil && inMb.hasher != nil && inMb.shardCoordinator != nil
+  ensures  hash-of-received-bytes: str(inMb.hash) == blockHashOf(str(mbBuff))
+  assigns  inMb.hash, inMb.isForCurrentShard
+
+// EXPECTED TO FAIL (finding F18): "hash == H(encoding of the content)" for the three intercepted block types; the code
+// hashes the received bytes and nothing ties them to the canonical encoding of what was decoded from them.
+lemma header-hash-of-content
+  vars inHdr *InterceptedHeader, buff []byte
+  hyp  inHdr.hdr != nil && inHdr.hasher != nil && inHdr.shardCoordinator != nil
+  call _ = inHdr.processFields(buff)
+  concl hash-of-content: str(inHdr.hash) == blockHashOf(canonHeader(inHdr.hdr))
+
+lemma meta-header-hash-of-content
+  vars imh *InterceptedMetaHeader, buff []byte
+  hyp  imh.hasher != nil
+  call _ = imh.processFields(buff)
+  concl hash-of-content: str(imh.hash) == blockHashOf(canonMeta(imh.hdr))
+
+lemma miniblock-hash-of-content
+  vars inMb *InterceptedMiniblock, buff []byte
+  hyp  inMb.miniblock != nil && inMb.hasher != nil && inMb.shardCoordinator != nil
+  call _ = inMb.processFields(buff)
+  concl hash-of-content: str(inMb.hash) == blockHashOf(canonMiniblock(inMb.miniblock))
+
+// what does hold: canonical bytes get the canonical hash
+lemma header-hash-of-canonical-bytes
+  vars inHdr *InterceptedHeader, buff []byte
+  hyp  inHdr.hdr != nil && inHdr.hasher != nil && inHdr.shardCoordinator != nil && str(buff) == canonHeader(inHdr.hdr)
+  call _ = inHdr.processFields(buff)
+  concl hash-of-content: str(inHdr.hash) == blockHashOf(canonHeader(inHdr.hdr))
+@*/
